@@ -340,13 +340,67 @@ def _analyse(prop, trs):
     return divs, viols, tags, len(nontrivial)
 
 
+def partial_probe(idx):
+    """an operation on several items that FAILS part-way (a later item cannot be encoded, a later key is missing): whatever it has done so far,
+    a fresh handle on the store sees exactly what the handle that did it sees - no change may stay private to the writing handle.
+    Runs in a child process (its own connections); monitor only: what a failing multi-item operation leaves behind is C03's business."""
+    kind = ['sql', 'file', 'dir'][idx % 3]
+    opname = ['update-bad-later-item', 'popkeys-missing-later-key', 'update-then-clear', 'clear'][(idx // 3) % 4]
+    tmp = scratch_dir('kpp')
+    code = r'''
+import sys, os, json
+import klepto.archives as ka
+kind, opname, tmp = sys.argv[1], sys.argv[2], sys.argv[3]
+def mk():
+    if kind == 'sql': return ka.sqltable_archive('sqlite:///%s' % os.path.join(tmp, 'p.db'), cached=False)
+    if kind == 'file': return ka.file_archive(os.path.join(tmp, 'p.pkl'), cached=False)
+    return ka.dir_archive(os.path.join(tmp, 'pd'), cached=False)
+class Bad(object):
+    def __reduce__(self): raise TypeError('cannot encode')
+bad = [3] if kind == 'sql' else Bad()
+a = mk(); a['a'] = 1; a['b'] = 2
+out = {}
+try:
+    if opname == 'update-bad-later-item': a.update([('c', 3), ('d', bad), ('e', 5)])
+    elif opname == 'popkeys-missing-later-key': a.popkeys(['a', 'nope', 'b'])
+    elif opname == 'update-then-clear': a.update({'c': 3}); a.clear()
+    else: a.clear()
+    out['exc'] = None
+except Exception as e:
+    out['exc'] = type(e).__name__
+out['W'] = sorted((repr(k), repr(v)) for k, v in a.items())
+out['F'] = sorted((repr(k), repr(v)) for k, v in mk().items())
+print(json.dumps(out))
+'''
+    try:
+        env = dict(os.environ, PYTHONPATH=REPO + os.pathsep + HERE, PYTHONDONTWRITEBYTECODE='1')
+        r = subprocess.run([sys.executable, '-c', code, kind, opname, tmp], stdout=subprocess.PIPE, stderr=subprocess.PIPE, text=True, env=env, cwd=tmp, timeout=120)
+        if r.returncode != 0: return dict(viol=[], err='partial probe child failed: ' + r.stderr[-600:])
+        out = json.loads(r.stdout.strip().splitlines()[-1])
+        viol = []
+        if out['W'] != out['F']:
+            viol.append(dict(prop='C04', i=0, sig=dict(backend=kind, codec='pickle', view='F', what='fresh-handle-differs-from-the-writing-handle', cause='none', bytecode=False, op=opname),
+                             msg='%s archive, %s (raised %s): the handle that did it reads %r, a fresh handle on the same store reads %r' % (kind, opname, out['exc'], out['W'], out['F']),
+                             cfg=dict(partial=idx), ops=[]))
+        return dict(viol=viol, err=None)
+    except Exception:
+        import traceback
+        return dict(viol=[], err=traceback.format_exc()[-800:])
+    finally:
+        rm_rf(tmp)
+
+
 def explore(prop, tier):
     with ThreadPool(NPROC) as p:
         trs = p.map(work, [(tier, i) for i in range(NTRACES[tier])])
         fts = p.map(fwork, [(tier, i) for i in range(NFUNC[tier])])
+        pps = p.map(partial_probe, list(range(12)))
     errors = [t['err'] for t in trs if t['err']] + [t['err'] for t in fts if t['err']]
     trs = [t for t in trs if not t['err']]; fts = [t for t in fts if not t['err']]
     divs, viols, tags, nontriv = _analyse(prop, trs)
+    errors += [o['err'] for o in pps if o['err']]
+    viols = viols + [v for o in pps for v in o['viol']]
+    tags['partial-operation-probe'] = len(pps)
     for t in fts:
         tags['redecorate'] += 1; tags['redecorate:' + t['job']['deco']] += 1
         for v in fmonitor(t): viols.append(dict(v, fjob=t['job']))
@@ -363,6 +417,10 @@ def _ser(ops): return dict(pickled=__import__('dill').dumps(ops).hex(), readable
 
 
 def replay(prop, obj):
+    if isinstance(obj.get('cfg'), dict) and 'partial' in obj['cfg']:
+        o = partial_probe(obj['cfg']['partial'])
+        if o['err']: raise NoVerdict(o['err'])
+        return dict(violations=[dict(prop='C04', sig=v['sig'], msg=v['msg'], i=0) for v in o['viol']], divergence=None)
     if 'fjob' in obj:
         tmp = None
         t = fwork_job(obj['fjob'])
@@ -392,6 +450,9 @@ def shrink_and_save(prop, v):
         return write_replay(prop, 'violation', dict(suite='persist', property=prop, fjob={k: x for k, x in v['fjob'].items() if k != 'loc'},
                                                     signature=v['sig'], message=v['msg']))
     cfg = v['cfg']
+    if 'partial' in cfg:
+        return write_replay(prop, 'violation', dict(suite='persist', property=prop, cfg=cfg, signature=v['sig'], message=v['msg'],
+                                                     how_to_replay='cd /verif && ./check C04 --replay <this file>'))
     def fails(ops):
         tr = run_trace(cfg, ops)
         return (not tr['err']) and any(x['sig'] == v['sig'] for x in monitor(tr))
